@@ -4,6 +4,8 @@
    model/IoHelpers.v (tied to compio-io by the correspondence check c11). *)
 From Compio.Model Require Import Base IoHelpers Buf IoVectored.
 From Compio.Thm Require Import IoHelpersThm BufThm IoVectoredThm.
+From Compio.Gen Require Frag.
+From Compio.Thm Require FragIoThm.
 
 (* read_exact, for EVERY schedule of the inner reader (chunk sizes, Interrupted,
    errors, EOF at any position), payload and buffer (length <= capacity, incl. 0):
@@ -285,3 +287,12 @@ Example C11_known_rvea_short_nonseq_refuted :
     = Ok (OErr E_UNEXPECTED_EOF, ms') /\ map rlen ms' = [4; 1].
 Proof. split; [vm_compute; reflexivity|]. eexists. split; vm_compute; reflexivity. Qed.
 Print Assumptions C11_known_rvea_short_nonseq_refuted.
+
+(* ---- source tie (translated from the Rust source on every run by tools/rs2v.py
+        into gen/Frag.v; an edit of the function changes the generated definition) ---- *)
+(* Buffer::need_flush (compio-io/src/buffer.rs) as the source has it now is the
+   eager-flush threshold BufWriter's model uses *)
+Theorem C11_need_flush_is_source : forall b,
+  buf_need_flush b = Frag.buffer_need_flush (vcap (bvec b)) (vlen (bvec b)).
+Proof. exact FragIoThm.need_flush_tie. Qed.
+Print Assumptions C11_need_flush_is_source.
